@@ -238,7 +238,27 @@ impl Number {
             Some(IntegerOrInfinity::Integer(precision)) if (0..=100).contains(&precision) =>
             // 5. If f < 0 or f > 100, throw a RangeError exception.
             {
-                f64_to_exponential_with_precision(this_num, precision as usize)
+                // 9-10. Pick e and n (f + 1 digits) such that n * 10^(e - f) is as close to x as
+                // possible; if there are two such sets, the larger n.
+                let precision = precision as usize;
+                let (sign, abs) = if this_num < 0.0 {
+                    ("-", -this_num)
+                } else {
+                    ("", this_num)
+                };
+                let (mut digits, exponent) = if abs == 0.0 {
+                    ("0".repeat(precision + 1), 0)
+                } else {
+                    Self::significant_digits(abs, precision + 1)
+                };
+                if precision > 0 {
+                    digits.insert(1, '.');
+                }
+                let exponent_sign = if exponent < 0 { '-' } else { '+' };
+                js_string!(format!(
+                    "{sign}{digits}e{exponent_sign}{}",
+                    exponent.unsigned_abs()
+                ))
             }
             _ => {
                 return Err(JsNativeError::range()
@@ -426,6 +446,31 @@ impl Number {
         }
     }
 
+    /// The decimal digits of a positive finite number rounded to `precision` significant digits,
+    /// and its decimal exponent. A tie is rounded up: the specification picks the larger `n`.
+    ///
+    /// Due to f64 limitations this differs a bit from the spec, but has the same effect. It
+    /// manipulates the string constructed by `format`: digits with an optional dot between two
+    /// of them.
+    fn significant_digits(value: f64, precision: usize) -> (String, i32) {
+        // A double has at most 1074 fraction digits: this is its exact decimal expansion.
+        let mut digits = format!("{value:.1074}");
+
+        // getting an exponent
+        let mut exponent = Self::flt_str_to_exp(&digits);
+        // getting relevant digits only
+        if exponent < 0 {
+            digits = digits.split_off((1 - exponent) as usize);
+        } else if let Some(n) = digits.find('.') {
+            digits.remove(n);
+        }
+        // having exactly `precision` digits
+        if Self::round_to_precision(&mut digits, precision) {
+            exponent += 1;
+        }
+        (digits, exponent)
+    }
+
     /// `Number.prototype.toPrecision( [precision] )`
     ///
     /// The `toPrecision()` method returns a string representing the Number object to the specified precision.
@@ -473,7 +518,7 @@ impl Number {
         // 7
         let mut prefix = String::new(); // spec: 's'
         let mut suffix: String; // spec: 'm'
-        let mut exponent: i32; // spec: 'e'
+        let exponent: i32; // spec: 'e'
 
         // 8
         if this_num < 0.0 {
@@ -487,24 +532,8 @@ impl Number {
             exponent = 0;
         // 10
         } else {
-            // Due to f64 limitations, this part differs a bit from the spec,
-            // but has the same effect. It manipulates the string constructed
-            // by `format`: digits with an optional dot between two of them.
-            // A double has at most 1074 fraction digits: this is its exact decimal expansion.
-            suffix = format!("{this_num:.1074}");
-
-            // a: getting an exponent
-            exponent = Self::flt_str_to_exp(&suffix);
-            // b: getting relevant digits only
-            if exponent < 0 {
-                suffix = suffix.split_off((1 - exponent) as usize);
-            } else if let Some(n) = suffix.find('.') {
-                suffix.remove(n);
-            }
-            // impl: having exactly `precision` digits in `suffix`
-            if Self::round_to_precision(&mut suffix, precision) {
-                exponent += 1;
-            }
+            // a, b: `precision` digits and the exponent
+            (suffix, exponent) = Self::significant_digits(this_num, precision);
 
             // c: switching to scientific notation
             let great_exp = exponent >= precision_i32;
@@ -948,17 +977,4 @@ fn f64_to_exponential(n: f64) -> JsString {
         x if x >= 1.0 || x == 0.0 => js_string!(s.cow_replace('e', "e+")),
         _ => js_string!(s),
     }
-}
-
-/// Helper function that formats a float as a ES6-style exponential number string with a given precision.
-// We can't use the same approach as in `f64_to_exponential`
-// because in cases like (0.999).toExponential(0) the result will be 1e0.
-// Instead we get the index of 'e', and if the next character is not '-' we insert the plus sign
-fn f64_to_exponential_with_precision(n: f64, prec: usize) -> JsString {
-    let mut res = format!("{n:.prec$e}");
-    let idx = res.find('e').expect("'e' not found in exponential string");
-    if res.as_bytes()[idx + 1] != b'-' {
-        res.insert(idx + 1, '+');
-    }
-    js_string!(res)
 }
